@@ -183,9 +183,9 @@ def run_unit(unit):
                 part.count('cmp:chief-zero')
                 # closed-form surfaces: zero to rounding; each iteratively intersected surface (Newton-Raphson, documented
                 # tolerance 1e-10 mm on the sag residual) lets the lone chief ray and the same ray inside a batch stop at
-                # different iterations, so allow 1e-9 mm of path per such surface
+                # different iterations (the position error is then carried over the remaining track), so allow 1e-8 mm of path per such surface
                 n_iter = sum(1 for s_ in sp['surfs'] if s_['shape'] not in ('sphere', 'plane', 'conic'))
-                ctol = 1e-9 + n_iter * 1e-9 / (w * 1e-3)
+                ctol = 1e-9 + n_iter * 1e-8 / (w * 1e-3)
                 if len(c0) and np.all(np.isfinite(c0)) and np.max(np.abs(c0)) > ctol:
                     part.violation(PID, 'chief-ray-opd-zero', 'Wavefront', cond, dict(det0, wavelength=w), observed=float(c0[0]), expected=0.0,
                                    tol=ctol)
